@@ -5,7 +5,7 @@
 //! solution, the dispatch.  The model runner (extracted Coq model) recomputes all of it.
 use hqv_common::{Rng, catch, env_u64, install_panic_hook, join};
 use std::fmt::Write as _;
-use tako::internal::verif::sched::{VEntry, VSched, encode_user_priority};
+use tako::internal::verif::sched::{VEntry, VQuery, VSched, encode_user_priority};
 
 const RES_NAMES: [&str; 3] = ["cpus", "gpus", "mem"];
 const FR: u64 = 10_000;
@@ -21,12 +21,75 @@ enum Op {
     AddRqV { variants: Vec<(Vec<(u32, u64)>, u64)> },
     Block { worker: u32, rq: u32, variant: u32 },
     VDecide,
+    AddWA { units: Vec<u32>, group: String, tl: Option<u64> },
+    AddRqMn { n_nodes: u32, min_time: u64 },
+    Query { queries: Vec<QSpec> },
     Prio { vals: Vec<i32> },
     Take { rq: u32, count: u32 },
     State,
     Decide,
     Solution,
     Mapping,
+}
+
+/// one worker-type query: descriptor items are (resource index, units); `mu` = min_utilization in percent
+#[derive(Clone, Debug)]
+struct QSpec {
+    partial: bool,
+    tl: Option<u64>,
+    max_sn: u32,
+    max_pa: u32,
+    mu: u32,
+    items: Vec<(u32, u32)>,
+}
+
+fn fmt_queries(qs: &[QSpec]) -> String {
+    join(
+        qs.iter().map(|q| {
+            format!(
+                "{}:{}:{}:{}:{}:{}",
+                q.partial as u8,
+                q.tl.map(|t| t.to_string()).unwrap_or("-".to_string()),
+                q.max_sn,
+                q.max_pa,
+                q.mu,
+                join(q.items.iter().map(|(r, u)| format!("{r}/{u}")), ",")
+            )
+        }),
+        ";",
+    )
+}
+
+fn parse_queries(s: &str) -> Option<Vec<QSpec>> {
+    if s == "-" {
+        return Some(Vec::new());
+    }
+    let mut out = Vec::new();
+    for q in s.split(';') {
+        let f: Vec<&str> = q.split(':').collect();
+        if f.len() != 6 {
+            return None;
+        }
+        let items = if f[5] == "-" {
+            Vec::new()
+        } else {
+            f[5].split(',')
+                .map(|e| {
+                    let (r, u) = e.split_once('/')?;
+                    Some((r.parse().ok()?, u.parse().ok()?))
+                })
+                .collect::<Option<Vec<_>>>()?
+        };
+        out.push(QSpec {
+            partial: f[0] == "1",
+            tl: if f[1] == "-" { None } else { Some(f[1].parse().ok()?) },
+            max_sn: f[2].parse().ok()?,
+            max_pa: f[3].parse().ok()?,
+            mu: f[4].parse().ok()?,
+            items,
+        });
+    }
+    Some(out)
 }
 
 fn parse_op(line: &str) -> Option<Op> {
@@ -67,6 +130,13 @@ fn parse_op(line: &str) -> Option<Op> {
         },
         "BLOCK" => Op::Block { worker: p(t[1]) as u32, rq: p(t[2]) as u32, variant: p(t[3]) as u32 },
         "VDECIDE" => Op::VDecide,
+        "ADDWA" => Op::AddWA {
+            group: t[1].to_string(),
+            tl: if t[2] == "-" { None } else { Some(p(t[2])) },
+            units: t[3..].iter().map(|x| p(x) as u32).collect(),
+        },
+        "ADDRQMN" => Op::AddRqMn { n_nodes: p(t[1]) as u32, min_time: p(t[2]) },
+        "QUERY" => Op::Query { queries: parse_queries(t[1].strip_prefix("q=")?)? },
         "ADDT" => Op::AddT { task: p(t[1]), rq: p(t[2]) as u32, prio: t[3].parse().unwrap() },
         "BUSY" => Op::Busy { task: p(t[1]), worker: p(t[2]) as u32, started: t[3] == "1" },
         "CFG" => Op::Cfg { reserve: p(t[1]) as u32, max: p(t[2]) as u32 },
@@ -175,6 +245,12 @@ impl World {
                 s.block(*worker, *rq, *variant);
                 None
             }
+            Op::AddWA { units, group, tl } => {
+                let others: Vec<(&str, u32)> =
+                    (1..n_res).filter(|r| units[*r] > 0).map(|r| (RES_NAMES[r], units[r])).collect();
+                Some(s.add_worker_auto(units[0], &others, group, *tl))
+            }
+            Op::AddRqMn { n_nodes, min_time } => Some(s.add_request_mn(*n_nodes, *min_time)),
             _ => None,
         }
     }
@@ -289,6 +365,97 @@ impl World {
                 self.o(format!("BLOCK {worker} {rq} {variant}"));
                 Self::apply_setup(&mut self.s, self.n_res, op);
                 self.setup.push(op.clone());
+            }
+            Op::AddWA { units, group, tl } => {
+                if self.decided || units.len() != self.n_res || units[0] == 0 || group.is_empty() {
+                    return false;
+                }
+                self.o(format!(
+                    "ADDWA {} {} {}",
+                    group,
+                    tl.map(|t| t.to_string()).unwrap_or("-".to_string()),
+                    join(units.iter(), " ")
+                ));
+                let id = Self::apply_setup(&mut self.s, self.n_res, op).unwrap();
+                self.e(format!("W {id}"));
+                self.workers.push(id);
+                self.worker_tl.push((id, *tl));
+                self.setup.push(op.clone());
+            }
+            Op::AddRqMn { n_nodes, min_time } => {
+                if self.decided || *n_nodes == 0 {
+                    return false;
+                }
+                self.o(format!("ADDRQMN {n_nodes} {min_time}"));
+                let id = Self::apply_setup(&mut self.s, self.n_res, op).unwrap();
+                self.e(format!("RQ {id}"));
+                if id == self.n_rq {
+                    self.n_rq += 1;
+                }
+                self.setup.push(op.clone());
+            }
+            Op::Query { queries } => {
+                if self.decided || queries.iter().any(|q| q.items.iter().any(|(r, _)| *r as usize >= self.n_res)) {
+                    return false;
+                }
+                self.decided = true;
+                self.solved = true;
+                self.mapped = true;
+                let qs: Vec<VQuery> = queries
+                    .iter()
+                    .map(|q| VQuery {
+                        partial: q.partial,
+                        items: q.items.iter().map(|(r, u)| (RES_NAMES[*r as usize].to_string(), *u)).collect(),
+                        time_limit: q.tl,
+                        max_sn_workers: q.max_sn,
+                        max_workers_per_allocation: q.max_pa,
+                        min_utilization: q.mu as f32 / 100.0,
+                    })
+                    .collect();
+                let free_real = self.s.n_free_workers();
+                let counter = self.s.worker_counter();
+                // the query runs on a scratch instance rebuilt from the same setup ops, so that a panic
+                // inside the real code cannot leave `self.s` half-updated
+                let mut scratch = VSched::new(&RES_NAMES[..self.n_res]);
+                for op in &self.setup {
+                    Self::apply_setup(&mut scratch, self.n_res, op);
+                }
+                let res = catch(move || scratch.query(&qs));
+                match res {
+                    Ok(r) => {
+                        // witness: the value of every placement variable the solver created
+                        self.o(format!(
+                            "QUERY q={} solved={} x={}",
+                            fmt_queries(queries),
+                            r.solved as u8,
+                            join(r.xvars.iter().map(|(k, a, b, c, v)| format!("{k}:{a}:{b}:{c}:{v}")), ",")
+                        ));
+                        self.e(format!("STATE counter={counter} free_real={free_real}"));
+                        if r.invalid {
+                            self.e("INVALID".to_string());
+                        } else {
+                            // the order among entries with equal sort key is unspecified (unstable sort):
+                            // print the list canonically and, separately, whether it was sorted by its key
+                            let by_key = r.mn.windows(2).all(|p| (p[0].0, p[0].1) <= (p[1].0, p[1].1));
+                            let mut mn = r.mn.clone();
+                            mn.sort();
+                            self.e(format!(
+                                "RESPONSE sn={} mn={}",
+                                join(r.sn.iter(), ","),
+                                join(mn.iter().map(|(i, n, a)| format!("{i}:{n}:{a}")), ",")
+                            ));
+                            self.e(format!("MNSORTED {}", by_key as u8));
+                        }
+                    }
+                    Err(msg) => {
+                        if std::env::var("HQV_SCHED_DEBUG").is_ok() {
+                            eprintln!("query panic: {msg}");
+                        }
+                        self.o(format!("QUERY q={} solved=0 x=-", fmt_queries(queries)));
+                        self.e(format!("STATE counter={counter} free_real={free_real}"));
+                        self.e("PANIC compute_new_worker_query".to_string());
+                    }
+                }
             }
             Op::VDecide => {
                 if self.decided {
@@ -771,6 +938,129 @@ fn gen_variants_trace(id: u64, rng: &mut Rng, out: &mut String) {
     finish(w, out);
 }
 
+/// C17 demand side: the REAL `compute_new_worker_query` on a core with connected workers (server-assigned
+/// ids, groups, partly busy), waiting single-node classes that fit / do not fit / fit only some query
+/// (resources, `min_time` vs. the query's time limit), multi-node classes, priorities; 1-3 queries (full /
+/// partial descriptors, max_sn_workers 0..4, max_workers_per_allocation 0..3, min_utilization).
+/// `malformed`: empty query list, all-zero max_sn_workers, invalid descriptors.
+fn gen_query_trace(id: u64, rng: &mut Rng, out: &mut String) {
+    let n_res = match rng.below(10) {
+        0..=3 => 1,
+        4..=7 => 2,
+        _ => 3,
+    };
+    let malformed = rng.chance(1, 8);
+    let mut w = World::new(n_res);
+    header(&mut w.out, id, n_res, if malformed { "query malformed" } else { "query" });
+    const LIMITS: [u64; 3] = [40, 100, 200];
+    const TIMES: [u64; 4] = [0, 0, 50, 150];
+    // connected workers
+    let n_workers = rng.below(4);
+    for _ in 0..n_workers {
+        let mut units = vec![rng.range(1, 4) as u32];
+        for _ in 1..n_res {
+            units.push(if rng.chance(1, 2) { rng.range(1, 3) as u32 } else { 0 });
+        }
+        let group = if rng.chance(2, 3) { "g1" } else { "g2" }.to_string();
+        let tl = if rng.chance(1, 3) { Some(*rng.pick(&LIMITS)) } else { None };
+        w.exec(&Op::AddWA { units, group, tl });
+    }
+    // single-node classes
+    let lo_sn = if rng.chance(1, 6) { 0 } else { 1 };
+    let n_sn = rng.range(lo_sn, 3);
+    let mut sn_classes: Vec<(u32, Vec<(u32, u64)>)> = Vec::new();
+    for _ in 0..n_sn {
+        let cpus = if rng.chance(1, 8) { FR / 2 } else { rng.range(1, 5) * FR };
+        let mut es = vec![(0u32, cpus)];
+        for r in 1..n_res {
+            if rng.chance(1, 3) {
+                es.push((r as u32, rng.range(1, 3) * FR));
+            }
+        }
+        if rng.chance(1, 8) {
+            let k = rng.below(es.len() as u64) as usize;
+            es[k].1 = 0; // `All` policy
+        }
+        let before = w.n_rq;
+        w.exec(&Op::AddRqV { variants: vec![(es.clone(), *rng.pick(&TIMES))] });
+        if w.n_rq > before {
+            sn_classes.push((before, es));
+        }
+    }
+    // multi-node classes
+    let n_mn = if rng.chance(1, 2) { rng.range(1, 2) } else { 0 };
+    let mut mn_classes: Vec<u32> = Vec::new();
+    for _ in 0..n_mn {
+        let before = w.n_rq;
+        w.exec(&Op::AddRqMn { n_nodes: rng.range(1, 3) as u32, min_time: *rng.pick(&TIMES) });
+        if w.n_rq > before {
+            mn_classes.push(before);
+        }
+    }
+    let levels: [i32; 3] = [0, 5, -3];
+    let mut next_task = 1u64;
+    for (rq, _) in &sn_classes {
+        for _ in 0..rng.below(6) {
+            let t = (1u64 << 32) | next_task;
+            next_task += 1;
+            w.exec(&Op::AddT { task: t, rq: *rq, prio: *rng.pick(&levels) });
+        }
+    }
+    for rq in &mn_classes {
+        for _ in 0..rng.below(4) {
+            let t = (1u64 << 32) | next_task;
+            next_task += 1;
+            w.exec(&Op::AddT { task: t, rq: *rq, prio: *rng.pick(&levels) });
+        }
+    }
+    // partly busy connected workers
+    if !w.workers.is_empty() && !sn_classes.is_empty() {
+        for _ in 0..rng.below(4) {
+            let (rq, _) = sn_classes[rng.below(sn_classes.len() as u64) as usize].clone();
+            let t = (1u64 << 32) | next_task;
+            next_task += 1;
+            let worker = w.workers[rng.below(w.workers.len() as u64) as usize];
+            w.exec(&Op::AddT { task: t, rq, prio: *rng.pick(&levels) });
+            w.exec(&Op::Busy { task: t, worker, started: rng.chance(2, 3) });
+        }
+    }
+    w.exec(&Op::State);
+    // queries
+    let n_q = if malformed && rng.chance(1, 3) { 0 } else { rng.range(1, 3) };
+    let zero_sn = malformed && rng.chance(1, 2);
+    let mut queries = Vec::new();
+    for _ in 0..n_q {
+        let partial = rng.chance(2, 5);
+        let mut items: Vec<(u32, u32)> = Vec::new();
+        if !partial || rng.chance(1, 2) {
+            items.push((0, rng.range(1, 6) as u32));
+        }
+        for r in 1..n_res {
+            if rng.chance(1, 2) {
+                items.push((r as u32, rng.range(1, 3) as u32));
+            }
+        }
+        if malformed && rng.chance(1, 3) {
+            match rng.below(3) {
+                0 => items.retain(|(r, _)| *r != 0),           // full descriptor without cpus
+                1 if !items.is_empty() => items[0].1 = 0,       // empty resource
+                _ if !items.is_empty() => items.push(items[0]), // defined twice
+                _ => {}
+            }
+        }
+        queries.push(QSpec {
+            partial,
+            tl: if rng.chance(3, 4) { Some(*rng.pick(&LIMITS)) } else { None },
+            max_sn: if zero_sn { 0 } else { rng.below(5) as u32 },
+            max_pa: rng.below(4) as u32,
+            mu: *rng.pick(&[0u32, 0, 0, 50, 100]),
+            items,
+        });
+    }
+    w.exec(&Op::Query { queries });
+    finish(w, out);
+}
+
 fn replay(input: &str) -> String {
     let mut out = String::new();
     let mut w: Option<World> = None;
@@ -829,11 +1119,13 @@ fn main() {
             if std::env::var("HQV_SCHED_NOPIN").is_err() {
                 pin_to_one_cpu(seed);
             }
-            let mut rng = Rng::new(seed ^ match mode.as_str() { "wide" => 0x5eed, "variants" => 0x7a71, "exact" => 0xe8ac, _ => 0 });
+            let mut rng = Rng::new(seed ^ match mode.as_str() { "wide" => 0x5eed, "variants" => 0x7a71, "exact" => 0xe8ac, "query" => 0xc17d, _ => 0 });
             let mut out = String::new();
             for i in 0..count {
                 if mode == "variants" {
                     gen_variants_trace(seed * 100000 + i, &mut rng, &mut out);
+                } else if mode == "query" {
+                    gen_query_trace(seed * 100000 + i, &mut rng, &mut out);
                 } else {
                     gen_trace(seed * 100000 + i, &mut rng, &tier, &mode, &mut out);
                 }
